@@ -45,7 +45,19 @@ def quiet_stdout():
 
 
 class _NoClock:
-    """Stands in for the `time` module inside irispie: any read of the wall clock is loud."""
+    """
+    Stands in for the `time` module inside irispie.progress_bars (the only clock reader in the package,
+    display only): a logical clock that advances by one second per read, so nothing depends on wall time.
+    """
+
+    def __init__(self):
+        self.now = 1_600_000_000.0
+        self.reads = 0
+
+    def time(self):
+        self.reads += 1
+        self.now += 1.0
+        return self.now
 
     def __getattr__(self, name):
         raise RuntimeError(f"sim: wall clock read on a simulated path (time.{name})")
@@ -88,6 +100,7 @@ def trim_trace(trace, limit=14):
 
 def do_run(args):
     from sim.kit import core
+    faulthandler.enable()
     quiet_stdout()
     pin_environment()
     mod, world_cls = load_world(args.prop)
@@ -111,6 +124,9 @@ def do_run(args):
         if len(agg["violations"]) >= 3:
             break
         rseed = core.run_seed(args.verif_seed, args.prop, idx)
+        if os.environ.get("VERIF_TRACE_RUNS"):
+            sys.stderr.write(f"RUN {idx} seed {rseed}\n")
+            sys.stderr.flush()
         faulthandler.dump_traceback_later(run_cap, exit=True)
         try:
             res = core.execute(world_cls, rseed, args.tier, known)
